@@ -23,6 +23,10 @@ type Client struct {
 	// and inbound PUBREC (for the client's own QoS 2 publishes) with PUBREL.
 	AutoAck bool
 
+	// HoldRel: identifiers of the client's own QoS 2 publishes whose PUBREC is not answered
+	// automatically (the script sends the PUBREL later)
+	HoldRel map[uint16]bool
+
 	buf    []byte
 	Rx     []Packet // every packet received, in order
 	nextID uint16
@@ -98,7 +102,9 @@ func (c *Client) Pump() bool {
 		case PUBREL:
 			c.Send(EncAck(PUBCOMP, p.ID))
 		case PUBREC:
-			c.Send(EncAck(PUBREL, p.ID))
+			if !c.HoldRel[p.ID] {
+				c.Send(EncAck(PUBREL, p.ID))
+			}
 		}
 	}
 	return true
